@@ -1,7 +1,7 @@
 #!/bin/sh
 # usage: tools/dev.sh <harness-filter> <relfile>... — inject the harness modules into the dev scratch copy and run the matching harnesses
 F=$1; shift
-D=/root/.verif-scratch/dev
+D=${DEV_DIR:-/root/.verif-scratch/dev}
 mkdir -p $D
 rsync -a --delete --exclude /target --exclude /.git ${DEV_SRC:-/repo}/ $D/repo/
 mkdir -p $D/repo/.cargo
